@@ -12,27 +12,29 @@ closes), every pool size and blocking mode.  The invariant behind them is `U3.Po
 namespace U3.Props
 open U3 U3.Pool
 
-/-- the server's reaction to request `rid` carries that request's tag on every head and body byte,
-and `stray` on everything unsolicited (by construction of `serverCells`) -/
+/-- the server's reaction to request `rid` carries that request's tag on every head byte, payload byte
+and framing byte of the chunked coding, and `stray` on everything unsolicited (by construction of
+`serverCells`); what it sends at once and what it holds back until the next request arrives are,
+together, exactly that reaction — the held-back tail keeps the tag of the *old* request -/
 theorem C03_server_tags (rid : Nat) (a : Attempt) :
-    ∀ c ∈ serverCells rid a, cellTag c = .req rid ∨ cellTag c = .stray := by
-  intro c hc
-  unfold serverCells at hc
-  split at hc
-  · simp at hc
-  · simp only [List.mem_append, List.mem_replicate, List.mem_singleton, List.mem_map] at hc
-    rcases hc with ((⟨_, rfl⟩ | rfl) | ⟨v, _, rfl⟩) | ⟨v, _, rfl⟩ <;> simp [cellTag]
+    (∀ c ∈ serverCells rid a, cellTag c = .req rid ∨ cellTag c = .stray) ∧
+    serverNow rid a ++ serverHeld rid a = serverCells rid a :=
+  ⟨serverCells_tags rid a, serverNow_held rid a⟩
 
 /-- **Unconditional form.**  After any history, from any initial pool, whatever the caller did with
-earlier responses (read, partial read, early release, drain, close, drop, stream) and whatever the
-server scripts were: everything a response has delivered is a prefix of what the server sent, after
-the head, in reaction to one attempt of *that response's own request* — never a byte of another
-request's reply — and never more than the length `http.client` derived from that reply's head. -/
+earlier responses (read, partial read, early release, drain, close, drop, stream), whatever the
+server scripts were (any framing, chunked or not, any chunk sizes and trailer sections, any tail of
+a reply held back and delivered late, when the next request arrives on that connection): everything
+a response has delivered is a prefix of what the server sent in reaction to one attempt of *that
+response's own request* — for a chunked reply a prefix of its de-chunked payload, otherwise a prefix
+of the bytes that follow the head — never a byte of another request's reply, never a byte the server
+held back for an earlier request, and never more than the length `http.client` derived from that
+reply's head. -/
 theorem C03_prefix_of_own_sent (ops : List Op) (n : Nat) (block proxy : Bool) :
     ∀ r ∈ (run (init n block proxy) ops).resps,
       r.delivered = [] ∨
-      ∃ a h, Scripted ops r.rid a ∧ a.head = some h ∧ r.delivered <+: bodyCells r.rid a ∧
-        ∀ l, initLength h r.isHead = some l → r.delivered.length ≤ l := by
+      ∃ a h, Scripted ops r.rid a ∧ a.head = some h ∧ r.delivered <+: deliverable r.rid a h ∧
+        ∀ l, lenBound h r.isHead = some l → r.delivered.length ≤ l := by
   intro r hr
   obtain ⟨i, hi⟩ := List.getElem?_of_mem hr
   rcases (run_prov ops n block proxy).resp i r hi with ⟨_, h, _⟩ | ⟨a, h, fr⟩
@@ -40,10 +42,12 @@ theorem C03_prefix_of_own_sent (ops : List Op) (n : Nat) (block proxy : Bool) :
   · exact Or.inr ⟨a, h, fr.att, fr.head, fr.dpre, fr.dlen⟩
 
 /-- **The property as stated** (`DESIGN.md` App. E): if the server scripts call `stray` only bytes
-that lie beyond the declared end of a reply (`WellFramed`: no stray bytes, or a 1xx/204/304 reply, or
-`Content-Length ≤` the body sent — for a read-until-close reply "stray" bytes *are* body), then for
-every history every byte delivered for a response carries the tag of that response's own request,
-and the delivered bytes are a prefix of the body the server sent for one attempt of that request.
+that lie beyond the declared end of a reply (`WellFramed`: no stray bytes, or a chunked reply — the
+chunked coding delimits itself —, or a 1xx/204/304 reply, or `Content-Length ≤` the body sent; for a
+read-until-close reply "stray" bytes *are* body), then for every history — chunked framing, trailer
+sections and tails of replies that the server holds back and delivers late included — every byte
+delivered for a response carries the tag of that response's own request, and the delivered bytes are
+a prefix of the body (the de-chunked payload) the server sent for one attempt of that request.
 No hypothesis on the caller: the known finding (`known_findings/C03.json`) does not produce foreign
 bytes in the model (late arrival of the rest of an abandoned body is kernel timing, DESIGN **P**); it
 violates the *second* clause of the property, see `C03_released_unread_witness`. -/
@@ -65,30 +69,53 @@ def strayAfterBody : Attempt :=
 def strayAfter204 : Attempt :=
   { head := some { status := 204, close := false, cl := none, location := false, retryAfter := false }, stray := [9] }
 
-/-- non-vacuity: a history with stray bytes after a `Content-Length` reply and after a 204 satisfies
-the framing hypothesis -/
+/-- a chunked reply (chunks of 2 and 1 bytes, two trailer fields) followed by 2 stray bytes, the last 9
+bytes of all that held back by the server until the next request arrives -/
+def chunkedHeld : Attempt :=
+  { head := some { status := 200, close := false, cl := none, location := false, retryAfter := false, chunked := true },
+    body := [1, 2, 3], sizes := [2, 1], trailers := [3, 4], stray := [7, 7], hold := 9 }
+
+/-- non-vacuity: a history with stray bytes after a `Content-Length` reply, after a 204 and after a
+chunked reply whose tail is held back satisfies the framing hypothesis -/
 example : ∀ rid a, Scripted [.request 0 {} (.count 2) [strayAfterBody], .dispose 0 .readAll,
-    .request 1 {} .off [strayAfter204]] rid a → WellFramed a := by
+    .request 1 {} .off [strayAfter204], .request 2 {} .off [chunkedHeld]] rid a → WellFramed a := by
   intro rid a ⟨rc, rt, script, hm, ha⟩
   simp at hm
-  rcases hm with ⟨_, _, _, rfl⟩ | ⟨_, _, _, rfl⟩
+  rcases hm with ⟨_, _, _, rfl⟩ | ⟨_, _, _, rfl⟩ | ⟨_, _, _, rfl⟩
   · simp at ha; subst ha
-    exact Or.inr ⟨_, rfl, Or.inr ⟨2, rfl, by simp [strayAfterBody]⟩⟩
+    exact Or.inr ⟨_, rfl, Or.inr (Or.inr ⟨2, rfl, by simp [strayAfterBody]⟩)⟩
   · simp at ha; subst ha
-    exact Or.inr ⟨_, rfl, Or.inl (Or.inl rfl)⟩
+    exact Or.inr ⟨_, rfl, Or.inr (Or.inl (Or.inl rfl))⟩
+  · simp at ha; subst ha
+    exact Or.inr ⟨_, rfl, Or.inl rfl⟩
 
 /-- stray bytes after a body-less reply (HEAD, 1xx, 204, 304) never reach the response they follow:
 in every reachable state such a response has delivered nothing (and by `C03_prefix_of_own_sent` no
 *other* response can deliver them either: a response only delivers bytes of its own request's
-reply).  Unconditional. -/
+reply).  No hypothesis on the history; the reply is one that is not chunked, or a reply to `HEAD`
+(`http.client` looks at `Transfer-Encoding: chunked` before it looks at the status: a chunked 204 is
+read as a chunked body — bytes of that very reply, see `C03_prefix_of_own_sent`). -/
 theorem C03_bodyless_stray_discarded (ops : List Op) (n : Nat) (block proxy : Bool) :
-    ∀ r ∈ (run (init n block proxy) ops).resps, noBody r.status r.isHead = true → r.delivered = [] := by
-  intro r hr hnb
+    ∀ r ∈ (run (init n block proxy) ops).resps, noBody r.status r.isHead = true →
+      (r.chunked = false ∨ r.isHead = true) → r.delivered = [] := by
+  intro r hr hnb hc
   obtain ⟨i, hi⟩ := List.getElem?_of_mem hr
   rcases (run_prov ops n block proxy).resp i r hi with ⟨_, h, _⟩ | ⟨a, h, fr⟩
   · exact h
-  · have := fr.dlen 0 (by simp [initLength, ← fr.st, hnb])
+  · have hb : lenBound h r.isHead = some 0 := by
+      have hch : (h.chunked && !r.isHead) = false := by
+        rcases hc with hc | hc
+        · rw [← fr.ch, hc]; rfl
+        · rw [hc]; simp
+      simp [lenBound, hch, initLength, ← fr.st, hnb]
+    have := fr.dlen 0 hb
     exact List.eq_nil_of_length_eq_zero (by omega)
+
+/-- non-vacuity: a 204 followed by a stray byte, read to the end — a body-less reply that is not chunked -/
+example :
+    let s := run (init 1 false) [.request 0 { preload := false, release := false } .off [strayAfter204], .dispose 0 .readAll]
+    (s.resps.map fun r => (noBody r.status r.isHead, r.chunked, r.delivered)) = [(true, false, [])] := by
+  decide
 
 /-- … and under the framing hypothesis no stray byte is ever delivered to anybody -/
 theorem C03_stray_never_delivered (ops : List Op) (n : Nat) (block proxy : Bool)
@@ -204,7 +231,9 @@ that does not release a connection while its response is unread -/
 `read(k)+release_conn()` by the caller — everything else is allowed: partial reads, `close()`,
 dropping responses, draining, streaming, closing the pool, any server script): for every *connected*
 connection `c` whose last response (`http.client`'s `__response`) is `r`,
-* if `r` is closed then it was read to its declared end (`length_remaining = 0`), and
+* if `r` is closed then its exchange is over (`Done`: read to its declared end, `length_remaining = 0`;
+  for a chunked reply: a chunk parser has read the empty line that ends the trailer section, or has
+  hit EOF while discarding it), and
 * if `r` is still open then it reads from `c`'s socket and holds `c` (`_connection = c`), so every way
   of abandoning `r` — `close()`, a failed read, garbage collection — closes `c`.
 Hence no connection with an unfinished exchange is ever idle in the pool. -/
@@ -212,7 +241,7 @@ theorem C03_unclean_never_yields_partial (ops : List Op) (n : Nat) (block proxy 
     (hne : ∀ op ∈ ops, NoEarlyOp op) :
     ∀ (c : Nat) (cn : Conn) (k r : Nat) (rs : Resp), (run (init n block proxy) ops).conns[c]? = some cn → cn.sock = some k →
       cn.pending = some r → (run (init n block proxy) ops).resps[r]? = some rs →
-      (rs.fp = none → rs.length = some 0) ∧ (rs.fp ≠ none → rs.fp = some k ∧ rs.conn = some c) := by
+      (rs.fp = none → Done rs) ∧ (rs.fp ≠ none → rs.fp = some k ∧ rs.conn = some c) := by
   intro c cn k r rs h1 h2 h3 h4
   obtain ⟨_, q2, q3⟩ := (run_link ops n block proxy hne).pend c cn k r rs h1 h2 h3 h4
   have q3' := q3 (by intro e; cases e)
@@ -222,6 +251,83 @@ theorem C03_unclean_never_yields_partial (ops : List Op) (n : Nat) (block proxy 
   | none => exact absurd hfp hn
   | some k' => rw [q2 k' hfp]
 
+
+/-- **A chunked exchange whose trailer section was not completely received never leaves a reusable
+connection** (partial: the same hypothesis as `C03_unclean_never_yields_partial`, the full statement is
+false for the same reason, `C03_released_unread_witness`).  In every state reachable by a history
+without early release, with arbitrary server scripts (chunk sizes, trailer sections, tails of replies
+held back and delivered late): if a *connected* connection's last response `r` is a closed chunked
+response (not a reply to `HEAD`), then one of the two chunk parsers — urllib3's `read_chunked` or
+`http.client`'s `_read_chunked` — has read the empty line that ends the message (`eom`), or it stopped
+discarding the trailer section because it hit EOF (`eof`: the peer's FIN is then pending on the socket,
+`C03_trailer_eof_pending`, and the checkout probe discards the connection, `C03_dirty_never_yields`).
+A parser that stops earlier — after the last-chunk line, after the first trailer line (the seeded
+defect `seeded/C03-m4`) — would leave `eom = eof = false` behind. -/
+theorem C03_chunked_incomplete_never_reusable_partial (ops : List Op) (n : Nat) (block proxy : Bool)
+    (hne : ∀ op ∈ ops, NoEarlyOp op) :
+    ∀ (c : Nat) (cn : Conn) (k r : Nat) (rs : Resp), (run (init n block proxy) ops).conns[c]? = some cn → cn.sock = some k →
+      cn.pending = some r → (run (init n block proxy) ops).resps[r]? = some rs →
+      rs.chunked = true → rs.isHead = false → rs.fp = none → rs.eom = true ∨ rs.eof = true := by
+  intro c cn k r rs h1 h2 h3 h4 hch hnh hfp
+  have := (C03_unclean_never_yields_partial ops n block proxy hne c cn k r rs h1 h2 h3 h4).1 hfp
+  rwa [done_chunked hch hnh] at this
+
+/-- non-vacuity: streaming a chunked reply with two trailer fields to its end leaves the connection
+connected, idle in the pool, with a closed chunked `__response` — and `eom` set -/
+example :
+    let hc : Head := { status := 200, close := false, cl := none, location := false, retryAfter := false, chunked := true }
+    let a0 : Attempt := { head := some hc, headLen := 3, body := [1, 2, 3], sizes := [2, 1], trailers := [2, 2] }
+    let s := run (init 1 false) [.request 0 { preload := false, release := false } .off [a0], .dispose 0 (.stream 7)]
+    s.queue = [some 0] ∧ (s.conns.map fun x => (x.sock, x.pending)) = [(some 0, some 0)] ∧
+    (s.resps.map fun x => (x.fp, x.chunked, x.isHead, x.eom, x.delivered.length)) = [(none, true, false, true, 3)] := by
+  decide
+
+/-- when a trailer loop ends without having seen the empty line, it ended at EOF, and the peer's FIN is
+pending on the socket at that moment: the connection is "readable", which is what the checkout probe
+(`C03_dirty_never_yields`) looks at.  (Both loops: urllib3's and `http.client`'s.) -/
+theorem C03_trailer_eof_pending (r k fuel : Nat) (s s' : State) (hex : ∃ rs : Resp, s.resps[r]? = some rs)
+    (hne : ∀ rs' : Resp, s'.resps[r]? = some rs' → rs'.eom = false) :
+    (skipTrailers fuel s r k = (s', none) → sockReadable s' k = true) ∧
+    (hcDiscardTrailer fuel s r k = (s', none) → sockReadable s' k = true) :=
+  ⟨fun h => skipTrailers_eof r k fuel s s' h hex hne, fun h => hcDiscardTrailer_eof r k fuel s s' h hex hne⟩
+
+/-- non-vacuity: a chunked reply whose server closes the connection in the middle of the trailer
+section — `stream()` ends cleanly at EOF (`eof`), the connection goes back to the pool connected, and the
+socket is readable (FIN pending) -/
+example :
+    let hc : Head := { status := 200, close := false, cl := none, location := false, retryAfter := false, chunked := true }
+    let a0 : Attempt := { head := some hc, headLen := 3, body := [1, 2, 3], sizes := [3], trailers := [2, 2], hold := 6, after := .fin }
+    let s := run (init 1 false) [.request 0 { preload := false, release := false } .off [a0], .dispose 0 (.stream 7)]
+    s.queue = [some 0] ∧ (s.conns.map fun x => x.sock) = [some 0] ∧
+    (s.resps.map fun x => (x.fp, x.eom, x.eof)) = [(none, false, true)] ∧ sockReadable s 0 = true := by
+  decide
+
+/-- the scenario of the seeded defect `seeded/C03-m4` on the model of the unmodified code: request 0 is
+answered with a chunked body and two trailer fields; the server sends the last-chunk line and the
+first trailer field at once and holds back the rest of the trailer section (6 bytes) until the next
+request arrives.  `b"".join(r.stream(7))` reads the three payload bytes, then waits for the rest of the
+trailer section: `ReadTimeoutError`, the connection is closed (`close 0`) before it goes back to the
+pool, and request 1 is made on a fresh socket (`connect 1`) — the 6 held-back bytes are never
+delivered to anybody (they are still held for the dead socket 0). -/
+theorem C03_held_trailer_closes_connection :
+    let hc : Head := { status := 200, close := false, cl := none, location := false, retryAfter := false, chunked := true }
+    let a0 : Attempt := { head := some hc, headLen := 3, body := [1, 2, 3], sizes := [3], trailers := [2, 2], hold := 6 }
+    let h1 : Head := { status := 200, close := false, cl := some 2, location := false, retryAfter := false }
+    let a1 : Attempt := { head := some h1, headLen := 3, body := [8, 9] }
+    let cfg : ReqCfg := { preload := false, release := false }
+    let s := run (init 1 false) [.request 0 cfg .off [a0]]
+    let st := step s (.dispose 0 (.stream 7))
+    let s' := (step st.1 (.request 1 cfg .off [a1])).1
+    -- the rest of the trailer section is held back
+    (s.socks.map fun x => (x.inbound.length, x.held.length)) = [(0, 6)] ∧
+    -- streaming fails, the connection is closed, response 0 never saw the end of the message
+    (match st.2 with | .disp (.raised e) => e.cls == Gen.cU3ReadTimeoutError | _ => false) = true ∧
+    (st.1.conns.map (·.sock)) = [none] ∧ (st.1.resps.map fun x => (x.fp, x.eom, x.eof)) = [(none, false, false)] ∧
+    -- the next request goes out on a new socket
+    s'.log = [.connect 0, .send 0, .recv 0, .recv 0, .close 0, .put (some 0), .connect 1, .send 1, .recv 1] ∧
+    (s'.socks.map fun x => x.held.length) = [6, 0] := by
+  decide
+
 /-- … and therefore `getresponse()` yields a response on a connection only if that connection's
 previous response (if `http.client` still remembers one) had been read to its end: an unread or
 half-read previous response makes `getresponse()` raise `ResponseNotReady` instead. -/
@@ -230,7 +336,7 @@ theorem C03_yield_only_after_complete_partial (ops : List Op) (n : Nat) (block p
     (hc : (run (init n block proxy) ops).conns[c]? = some cn) (hk : cn.sock = some k')
     (hy : getResponse (run (init n block proxy) ops) c k rid rc = (s', .resp r')) :
     ∀ (r0 : Nat) (rs0 : Resp), cn.pending = some r0 → (run (init n block proxy) ops).resps[r0]? = some rs0 →
-      rs0.fp = none ∧ rs0.length = some 0 := by
+      rs0.fp = none ∧ Done rs0 := by
   intro r0 rs0 hp hr0
   have hcl : rs0.fp = none := by
     cases hfp : rs0.fp with
